@@ -36,7 +36,11 @@ RULE = (
     "for all, one chunk holding >= 3000 frames; UDP: datagram sequences of the same items plus empty / truncated / "
     "random datagrams; non-trivial = stream with a malformed frame followed by a valid one, or a chunk boundary "
     "inside a 6-octet header; distinct by (stream, chunking) hash"
+    "; thorough tier only: atheris/libFuzzer campaigns (vk/fuzz.py, fuzz/c22_target.py; 8 processes, half from an empty corpus, half from "
+    "a seed corpus of valid inputs, -runs budget, -seed derived from VERIF_SEED) with this same oracle inside the target: input = stream octets + chunk sizes (TCP) or datagram lengths (UDP) via FuzzedDataProvider; the reference splitter turns the stream into 'c20:' items + tail, Plan/deliver_tcp/deliver_udp judge that one chunking (after an unreadable header only exceptions / non-termination); each "
+    "execution counts as one evaluation, it is non-trivial by the same rule (malformed frame followed by a valid one, or a chunk boundary inside a header, measured in the target), distinct by input hash"
 )
+FUZZ_RUNS = 300_000  # executions per campaign (thorough tier)
 ASSUMPTIONS = [
     "well-formedness of a frame is known by construction for generated valid frames and for the listed declared "
     "malformations; for frames from the C20 mutation space it is taken from a stand-alone parse of that frame "
@@ -560,6 +564,10 @@ def run(ctx) -> None:
     jobs += [("udp", None, ctx.n(400, 3000)), ("big", None, 0)]
     parallel(ctx, _dispatch, jobs, procs=ctx.n(8, 16))
     ctx.notes["budget"] = f"{A_STEPS} + {B_STEPS}*octets_fed_so_far sys.monitoring steps per data_received / datagram_received call"
+    if not ctx.quick:  # thorough tier only: coverage-guided campaigns, oracle inside the target
+        from vk.fuzz import run_fuzz
+
+        run_fuzz(ctx, PROPERTY, runs=FUZZ_RUNS, jobs=8)
 
 
 def replay(ctx, case) -> None:
